@@ -12,6 +12,7 @@ import UnytModel.RegistryC12
 import UnytModel.RegistryC12Conv
 import UnytModel.Generated.RegistryC12Cfg
 import UnytModel.RegistryC12Alias
+import UnytModel.RegistryC12Macro
 import UnytModel.Generated.RegistryC12Alias
 
 namespace Unyt
@@ -85,41 +86,22 @@ def specOut (st : C12State) (op : Op Float) : Out Float :=
 
 def specOp (st : C12State) (op : Op Float) : String := st.outStr (st.specOut op)
 
-/-- `r.modify(sym, unyt_quantity(v, q, registry=r))` as the machine steps it performs
-    (array.py / unit_registry.py:212-215): build the quantity's unit from the string `q` in this
-    registry, then `modify` with the MKS value `v * scale(q)` and the unit's dimensions.
-    The spec-side contents take the value from what `q` denotes in `fresh contents`. -/
-def modifyByQuantity (st : C12State) (sym : String) (v : Float) (q : String) : C12State × String :=
-  let specU := st.specOut (.unit q)
-  let (st1, safe1, o1) := st.doOp' (.unit q) false
-  match o1 with
-  | .unit _ u =>
-    let (st2, safe2, o2) := st1.doOp' (.modifyQ sym (v * u.scale) u.dim true) false
-    let c' := match specU with
-      | .unit _ u' => specStep st.contents (.modifyQ sym (v * u'.scale) u'.dim true)
-      | _ => st.contents
-    let st3 := { st2 with contents := c' }
-    (st3, st3.reply (safe1 && safe2) o2)
-  | o => (st1, st1.reply safe1 o)
+/-- a reading edit (`RegistryC12Macro`): the machine runs `mstep` (the definitions `C12_reading_edits_full` is
+    about), the guard is `safeRun` over the primitive calls it performs, the spec-side contents change as a FRESH
+    registry holding them would (`mspec`) -/
+def doMacro (st : C12State) (m : MOp Float) : C12State × String :=
+  let safe := safeRun st.cfg st.pre st.parse st.reg (mexpand st.cfg st.pre st.parse st.reg m)
+  let (reg', out) := mstep st.cfg st.pre st.parse st.reg m
+  let st' := { st with reg := reg', contents := mspec st.cfg st.pre st.parse st.contents m }
+  (st', st'.reply safe out)
 
-/-- `define_unit(sym, (v, q), prefixable=p, registry=r)` as the machine steps it performs
-    (unit_object.py:1021-1085): `sym in r` (→ `RuntimeError`), the quantity's unit from `q`, `add`. -/
+/-- `r.modify(sym, unyt_quantity(v, q, registry=r))` (unit_registry.py:modify, quantity branch) -/
+def modifyByQuantity (st : C12State) (sym : String) (v : Float) (q : String) : C12State × String :=
+  st.doMacro (.modifyQu sym v q)
+
+/-- `define_unit(sym, (v, q), prefixable=p, registry=r)` (unit_object.py:define_unit) -/
 def defineUnit (st : C12State) (sym : String) (v : Float) (q : String) (p : Bool) : C12State × String :=
-  let specHas := st.specOut (.contains sym)
-  let specU := st.specOut (.unit q)
-  let c' := match specHas, specU with
-    | .bool false, .unit _ u' => specStep st.contents (.add sym ⟨v * u'.scale, u'.dim, 0, p⟩)
-    | _, _ => st.contents
-  let (st1, safe1, o1) := st.doOp' (.contains sym) false
-  match o1 with
-  | .bool true => ({ st1 with contents := c' }, st1.reply safe1 (.err .RuntimeError))
-  | _ =>
-    let (st2, safe2, o2) := st1.doOp' (.unit q) false
-    match o2 with
-    | .unit _ u =>
-      let (st3, safe3, o3) := st2.doOp' (.add sym ⟨v * u.scale, u.dim, 0, p⟩) false
-      ({ st3 with contents := c' }, st3.reply (safe1 && safe2 && safe3) o3)
-    | o => ({ st2 with contents := c' }, st2.reply (safe1 && safe2) o)
+  st.doMacro (.defineUnit sym v q p)
 
 /-- heap indices and expressions of the a-th and b-th `c12.unit` results -/
 def heapPair (st : C12State) (a b : String) : Option (Nat × Nat × UExpr Float × UExpr Float) := do
